@@ -141,3 +141,7 @@ package alpine
 //@ lemma c20-range-equal [C20] uses c20-equal: forall vr *VersionRange, v1, v2 *Version, ecosystem *Ecosystem :: vr != nil && v1 != nil && v2 != nil && wfRange(vr) && ecosystem != nil && wf(v1) && wf(v2) && (forall i int :: 0 <= i && i < len(vr.constraints) ==> (theEcosystem().NewVersion(vr.constraints[i].version).1 == nil ==> wf(theEcosystem().NewVersion(vr.constraints[i].version).0)) && (vr.constraints[i].operator == "=" || vr.constraints[i].operator == "!=" || vr.constraints[i].operator == "<" || vr.constraints[i].operator == "<=" || vr.constraints[i].operator == ">" || vr.constraints[i].operator == ">=")) && v1.Compare(v2) == 0 ==> ((forall i int :: 0 <= i && i < len(vr.constraints) ==> satisfiesConstraint(v1, vr.constraints[i], theEcosystem())) == (forall i int :: 0 <= i && i < len(vr.constraints) ==> satisfiesConstraint(v2, vr.constraints[i], theEcosystem())))
 // ... and the set a range without != accepts is convex in the order
 //@ lemma c20-range-convex [C20] uses c20-convex: forall vr *VersionRange, a, b, d *Version, ecosystem *Ecosystem :: vr != nil && a != nil && b != nil && d != nil && wfRange(vr) && ecosystem != nil && wf(a) && wf(b) && wf(d) && (forall i int :: 0 <= i && i < len(vr.constraints) ==> (theEcosystem().NewVersion(vr.constraints[i].version).1 == nil ==> wf(theEcosystem().NewVersion(vr.constraints[i].version).0)) && (vr.constraints[i].operator == "=" || vr.constraints[i].operator == "!=" || vr.constraints[i].operator == "<" || vr.constraints[i].operator == "<=" || vr.constraints[i].operator == ">" || vr.constraints[i].operator == ">=") && vr.constraints[i].operator != "!=") && a.Compare(b) <= 0 && b.Compare(d) <= 0 && (forall i int :: 0 <= i && i < len(vr.constraints) ==> satisfiesConstraint(a, vr.constraints[i], theEcosystem())) && (forall i int :: 0 <= i && i < len(vr.constraints) ==> satisfiesConstraint(d, vr.constraints[i], theEcosystem())) ==> (forall i int :: 0 <= i && i < len(vr.constraints) ==> satisfiesConstraint(b, vr.constraints[i], theEcosystem()))
+
+// ---- the registered name (the VERS evaluator and the CLI select behaviour by it)
+//@ func (*Ecosystem).Name
+//@   ensures result == "alpine"   [C04 C15 C17]
